@@ -323,6 +323,9 @@ def correspondence(chk, drv, C):
         fs = Spline2D(bq, br)
         interp.compute_interpolant(fv.copy(), fs)
         # --- real code
+        if not explicit and chk.hist.get('FAIL C12:impl-no-termination', 0) >= 2:
+            chk.count('implicit cases skipped after two non-terminating ones (a failing input is already recorded)')
+            continue
         try:
             f = run_real(C, bq, br, q, r, phi, fv, dt, v, nul, explicit, tol, B0)
             hung = False
@@ -471,10 +474,15 @@ def order_test(chk, C):
         va, vr, lip = drift_stats(phi, q, r, 1.0)
         dt0 = 0.2 / lip
         errs = []
-        for dt in (dt0, dt0 / 2):
-            fe = run_real(C, bq, br, q, r, phi, fv, dt, 0.0, True, True, 1e-10, 1.0)
-            fi = run_real(C, bq, br, q, r, phi, fv, dt, 0.0, True, False, 1e-14, 1.0, timeout=60.0)
-            errs.append(float(np.abs(fe - fi)[:, 2:-2].max()))
+        try:
+            for dt in (dt0, dt0 / 2):
+                fe = run_real(C, bq, br, q, r, phi, fv, dt, 0.0, True, True, 1e-10, 1.0)
+                fi = run_real(C, bq, br, q, r, phi, fv, dt, 0.0, True, False, 1e-14, 1.0, timeout=30.0)
+                errs.append(float(np.abs(fe - fi)[:, 2:-2].max()))
+        except Timeout:
+            chk.fail('C12:impl-no-termination', 'implicit iteration did not return within 30 s on a contractive input (dt = 0.2/Lipschitz bound)',
+                     {'path': kind, 'degrees': degs, 'dt': dt0, 'seed_case': it, 'test': 'order-in-dt'})
+            continue
         order = math.log2(errs[0] / errs[1]) if errs[1] > 0 else float('inf')
         chk.count('test: explicit vs implicit order in dt measured %.1f' % round(order, 1))
         if errs[1] > 1e-11 and order < 2.5:
